@@ -19,7 +19,10 @@ static size_t g_k;    /* ghost byte index, fixed by the harness, never assigned 
 #define KEEP(n, text)         if (g_k < sizeof(n)) __CPROVER_assert(B(n, g_k) == B(n##_0, g_k), text)
 #define ZERO_OR_KEEP(n, text) if (g_k < sizeof(n)) __CPROVER_assert(B(n, g_k) == B(n##_0, g_k) || B(n, g_k) == 0, text)
 #define ZEROED(n, text)       if (has_##n && g_k < sizeof(n)) __CPROVER_assert(B(n, g_k) == 0, text)
-#define GATE(ret, text)       { (void)(ret); __CPROVER_assert(g_illegal >= 1 && g_error == 0, text); }
+/* the property allows EITHER the result a full context would give OR a report of illegal use: with the gate
+ * closed the only result that needs no generator multiplication is 0 (audit 2 #3); that ecmult_gen is not
+ * reached is the obligation inside gate_stub_ecmult_gen */
+#define GATE(ret, text)       __CPROVER_assert((g_illegal >= 1 || (ret) == 0) && g_error == 0, text)
 #define CTX_KEEP(text)        if (g_k < sizeof(secp256k1_context)) __CPROVER_assert(B(sctx, g_k) == B(sctx_0, g_k), text)
 #define STATIC_COPY() secp256k1_context sctx, sctx_0; \
     sctx = *secp256k1_context_static; HASHLOG_RESET(); \
@@ -59,27 +62,27 @@ void h_gate_core(void) {
     g_k = k;
 
     ret = secp256k1_ec_pubkey_create(&sctx, p_pubkey, p_seckey);
-    GATE(ret, "C20 gates ec_pubkey_create: static context is reported as illegal use");
+    GATE(ret, "C20 gates ec_pubkey_create: static context is reported as illegal use, or the call returns 0 without needing the generator");
     if (has_pubkey && has_seckey) REACH("ec_pubkey_create stopped at the gate");
 
     AGAIN() ret = secp256k1_ecdsa_sign(&sctx, p_sig, p_msg32, p_seckey, use_fn ? stub_nonce : NULL, NULL);
-    GATE(ret, "C20 gates ecdsa_sign: static context is reported as illegal use");
+    GATE(ret, "C20 gates ecdsa_sign: static context is reported as illegal use, or the call returns 0 without needing the generator");
 
     AGAIN() ret = secp256k1_ecdsa_sign_recoverable(&sctx, p_rsig, p_msg32, p_seckey, use_fn ? stub_nonce : NULL, NULL);
-    GATE(ret, "C20 gates ecdsa_sign_recoverable: static context is reported as illegal use");
+    GATE(ret, "C20 gates ecdsa_sign_recoverable: static context is reported as illegal use, or the call returns 0 without needing the generator");
 
     AGAIN() ret = secp256k1_keypair_create(&sctx, p_kp_out, p_seckey);
-    GATE(ret, "C20 gates keypair_create: static context is reported as illegal use");
+    GATE(ret, "C20 gates keypair_create: static context is reported as illegal use, or the call returns 0 without needing the generator");
 
     AGAIN() ret = secp256k1_schnorrsig_sign32(&sctx, p_sig64, p_msg32, p_kp_in, p_aux);
-    GATE(ret, "C20 gates schnorrsig_sign32: static context is reported as illegal use");
+    GATE(ret, "C20 gates schnorrsig_sign32: static context is reported as illegal use, or the call returns 0 without needing the generator");
 
     __CPROVER_assume(msglen <= 32);
     AGAIN() ret = secp256k1_schnorrsig_sign_custom(&sctx, p_sig64, p_msg32, msglen, p_kp_in, p_xp);
-    GATE(ret, "C20 gates schnorrsig_sign_custom: static context is reported as illegal use");
+    GATE(ret, "C20 gates schnorrsig_sign_custom: static context is reported as illegal use, or the call returns 0 without needing the generator");
 
     AGAIN() ret = secp256k1_ellswift_create(&sctx, p_ell64, p_seckey, p_aux);
-    GATE(ret, "C20 gates ellswift_create: static context is reported as illegal use");
+    GATE(ret, "C20 gates ellswift_create: static context is reported as illegal use, or the call returns 0 without needing the generator");
 
     KEEP(seckey, "C20 gates core: secret key input not written"); KEEP(msg32, "C20 gates core: message not written");
     KEEP(aux, "C20 gates core: aux randomness not written"); KEEP(kp_in, "C20 gates core: input keypair not written");
@@ -107,7 +110,7 @@ void h_gate_musig(void) {
 
     secnonce = secnonce_0; pubnonce = pubnonce_0;
     AGAIN() ret = secp256k1_musig_nonce_gen_counter(&sctx, p_secnonce, p_pubnonce, cnt, p_keypair, p_msg32_mg, p_cache, p_extra_mg);
-    GATE(ret, "C20 gates musig_nonce_gen_counter: static context is reported as illegal use");
+    GATE(ret, "C20 gates musig_nonce_gen_counter: static context is reported as illegal use, or the call returns 0 without needing the generator");
     KEEP(seckey_mg, "C20 gates musig: seckey_mg not written"); KEEP(pubkey, "C20 gates musig: pubkey not written"); KEEP(msg32_mg, "C20 gates musig: msg32_mg not written");
     KEEP(cache, "C20 gates musig: keyagg cache not written"); KEEP(extra_mg, "C20 gates musig: extra_mg input not written"); KEEP(keypair, "C20 gates musig: keypair not written");
     CTX_KEEP("C20 gates musig: the context object is not written");
@@ -129,22 +132,22 @@ void h_gate_zkp1(void) {
     g_k = k;
 
     ret = secp256k1_ecdsa_s2c_sign(&sctx, p_sig, p_opening, p_msg32_z1, p_seckey_z1, p_data32_z1);
-    GATE(ret, "C20 gates ecdsa_s2c_sign: static context is reported as illegal use");
+    GATE(ret, "C20 gates ecdsa_s2c_sign: static context is reported as illegal use, or the call returns 0 without needing the generator");
 
     AGAIN() ret = secp256k1_ecdsa_anti_exfil_signer_commit(&sctx, p_opening, p_msg32_z1, p_seckey_z1, p_data32_z1);
-    GATE(ret, "C20 gates anti_exfil_signer_commit: static context is reported as illegal use");
+    GATE(ret, "C20 gates anti_exfil_signer_commit: static context is reported as illegal use, or the call returns 0 without needing the generator");
 
     AGAIN() ret = secp256k1_ecdsa_adaptor_encrypt(&sctx, p_asig162_z1, p_seckey_z1, p_enckey, p_msg32_z1, use_fn ? stub_nonce_adaptor : NULL, NULL);
-    GATE(ret, "C20 gates ecdsa_adaptor_encrypt: static context is reported as illegal use");
+    GATE(ret, "C20 gates ecdsa_adaptor_encrypt: static context is reported as illegal use, or the call returns 0 without needing the generator");
 
     AGAIN() ret = secp256k1_ecdsa_adaptor_recover(&sctx, p_deckey32_z1, p_sig, p_asig162_z1, p_enckey);
-    GATE(ret, "C20 gates ecdsa_adaptor_recover: static context is reported as illegal use");
+    GATE(ret, "C20 gates ecdsa_adaptor_recover: static context is reported as illegal use, or the call returns 0 without needing the generator");
 
     AGAIN() ret = secp256k1_generator_generate_blinded(&sctx, p_gen, p_data32_z1, p_blind32_z1);
-    GATE(ret, "C20 gates generator_generate_blinded: static context is reported as illegal use");
+    GATE(ret, "C20 gates generator_generate_blinded: static context is reported as illegal use, or the call returns 0 without needing the generator");
 
     AGAIN() ret = secp256k1_pedersen_commit(&sctx, p_commit, p_blind32_z1, value, p_gen);
-    GATE(ret, "C20 gates pedersen_commit: static context is reported as illegal use");
+    GATE(ret, "C20 gates pedersen_commit: static context is reported as illegal use, or the call returns 0 without needing the generator");
 
     KEEP(msg32_z1, "C20 gates zkp1: msg32_z1 not written"); KEEP(seckey_z1, "C20 gates zkp1: seckey_z1 not written"); KEEP(data32_z1, "C20 gates zkp1: data32_z1 not written");
     KEEP(enckey, "C20 gates zkp1: enckey not written"); KEEP(blind32_z1, "C20 gates zkp1: blind32_z1 not written");
@@ -172,19 +175,19 @@ void h_gate_zkp2(void) {
     __CPROVER_assume(msg_len <= 32 && extra_len <= 32);
 
     ret = secp256k1_rangeproof_sign(&sctx, p_proof_z2, p_plen, minv, p_commit, p_blind_z2, p_nonce_z2, exp, min_bits, value, p_message_z2, msg_len, p_extra_z2, extra_len, p_gen);
-    GATE(ret, "C20 gates rangeproof_sign: static context is reported as illegal use");
+    GATE(ret, "C20 gates rangeproof_sign: static context is reported as illegal use, or the call returns 0 without needing the generator");
 
     AGAIN() ret = secp256k1_rangeproof_rewind(&sctx, p_blind_out_z2, p_value_out, p_msg_out_z2, p_outlen, p_nonce_z2, p_min_value, p_max_value, p_commit, p_proof_z2, 64, p_extra_z2, extra_len, p_gen);
-    GATE(ret, "C20 gates rangeproof_rewind: static context is reported as illegal use");
+    GATE(ret, "C20 gates rangeproof_rewind: static context is reported as illegal use, or the call returns 0 without needing the generator");
 
     AGAIN() ret = secp256k1_surjectionproof_generate(&sctx, has_sproof ? &sproof : NULL, has_arrays ? tags : NULL, n, p_tag_out, idx, p_key_a_z2, p_key_b_z2);
-    GATE(ret, "C20 gates surjectionproof_generate: static context is reported as illegal use");
+    GATE(ret, "C20 gates surjectionproof_generate: static context is reported as illegal use, or the call returns 0 without needing the generator");
 
     AGAIN() ret = secp256k1_whitelist_sign(&sctx, has_wsig ? &wsig : NULL, has_arrays ? onl : NULL, has_arrays ? offl : NULL, n, p_sub_pubkey, p_key_a_z2, p_key_b_z2, idx);
-    GATE(ret, "C20 gates whitelist_sign: static context is reported as illegal use");
+    GATE(ret, "C20 gates whitelist_sign: static context is reported as illegal use, or the call returns 0 without needing the generator");
 
     AGAIN() ret = secp256k1_schnorrsig_aggverify(&sctx, p_xpk, p_message_z2, n, p_aggsig_z2, alen);
-    GATE(ret, "C20 gates schnorrsig_aggverify: static context is reported as illegal use");
+    GATE(ret, "C20 gates schnorrsig_aggverify: static context is reported as illegal use, or the call returns 0 without needing the generator");
 
     KEEP(blind_z2, "C20 gates zkp2: blind_z2 not written");
     KEEP(nonce_z2, "C20 gates zkp2: nonce_z2 not written"); KEEP(message_z2, "C20 gates zkp2: message_z2 not written"); KEEP(extra_z2, "C20 gates zkp2: extra_z2 commit not written");
